@@ -270,3 +270,18 @@ def paths_split_on(outs, c, abstract=None):
         bad.detail = f"a path condition {str(pc)[:120]} is neither equivalent to the reference branch condition nor to its negation: " + (bad.detail or "")
         return bad
     return last or be.Verdict(be.UNKNOWN, "SMT", detail="no paths")
+
+
+def lean_obligation(ctx, schemas):
+    """thorough tier: the Lean/Mathlib library of meta-lemmas behind the trusted schemas is re-checked"""
+    import os
+    import subprocess
+    root = os.path.dirname(os.path.dirname(os.path.dirname(os.path.abspath(__file__))))
+
+    def run():
+        p = subprocess.run([os.path.join(root, "bin", "lean_check")], capture_output=True, text=True, timeout=1700)
+        if p.returncode == 0:
+            return be.Verdict(be.PROVED, "LEAN", detail=p.stdout.strip().splitlines()[-1] + "; schemas used here: " + ", ".join(schemas))
+        return be.Verdict("ERROR", "LEAN", detail="lean_check failed: " + (p.stdout + p.stderr)[-400:])
+
+    return Obligation("lean.meta_lemmas", "Lean 4 / Mathlib re-check of the meta-lemmas behind the trusted schemas (" + ", ".join(schemas) + "): /verif/lean/Lemmas.lean compiles without sorry", run, [], "LEAN")
